@@ -79,6 +79,8 @@ func vhAssertionEl(p string, sig int) *vhA {
 	vhText2(at, "saml:AttributeValue", a.AttrValue)
 	au := e.CreateElement("saml:AuthnStatement")
 	au.CreateAttr("SessionIndex", a.SessionIndex)
+	// attacker-supplied junk named after the library's trust flag: must never be decoded into it
+	vhText2(e, "saml:SignatureValidated", "true")
 	a.el = e
 	return a
 }
@@ -86,6 +88,10 @@ func vhAssertionEl(p string, sig int) *vhA {
 // vhEncryptedEl wraps inner (an element, or nil for bytes that do not parse) as saml:EncryptedAssertion
 // encrypted to the SP key (AES-128-GCM, RSA-OAEP, key inline) — anyone holding the SP certificate can do it.
 func vhEncryptedEl(p string, inner *etree.Element) *etree.Element {
+	return vhEncryptedElZ(p, inner, false)
+}
+
+func vhEncryptedElZ(p string, inner *etree.Element, compressed bool) *etree.Element {
 	symKey := vBytes(p + ".symkey")
 	vAssume(len(symKey) == 16)
 	ea := etree.NewElement("saml:EncryptedAssertion")
@@ -106,7 +112,7 @@ func vhEncryptedEl(p string, inner *etree.Element) *etree.Element {
 	vAssume(wrapped != "")
 	vhText2(ekcd, "xenc:CipherValue", wrapped)
 	cd := ed.CreateElement("xenc:CipherData")
-	vhText2(cd, "xenc:CipherValue", vEncryptTree(p+".cv", inner, symKey))
+	vhText2(cd, "xenc:CipherValue", vEncryptTree(p+".cv", inner, symKey, compressed))
 	return ea
 }
 
@@ -142,9 +148,16 @@ func vhResponseRoot(s *vhScenario, tag string) *etree.Element {
 	s.Issuer = vString("resp.Issuer")
 	vhText2(r, "saml:Issuer", s.Issuer)
 	if s.rootSig != vhSigNone {
-		sg := r.CreateElement("ds:Signature")
+		holder := r
+		if vFlag("root.sig.nested") {
+			// the message's own enveloped signature sits inside an extension element instead of directly under the root
+			holder = r.CreateElement("samlp:Extensions")
+			holder.CreateAttr("vx-sigholder", "1")
+		}
+		sg := holder.CreateElement("ds:Signature")
 		sg.CreateAttr("xmlns:ds", "http://www.w3.org/2000/09/xmldsig#")
 	}
+	vhText2(r, "samlp:SignatureValidated", "true")
 	st := r.CreateElement("samlp:Status")
 	sc := st.CreateElement("samlp:StatusCode")
 	s.StatusCode = vString("resp.StatusCode")
@@ -417,4 +430,107 @@ func VH_C02_store_rollover() {
 	vReach("first-accepted", err1 == nil)
 	vAssert("C02,C01,C10.every-signature-check-uses-the-currently-configured-store-and-clock", vValidateCtxSince(k, sp))
 	vAssert("C02,C01,C10.signature-by-a-certificate-no-longer-in-the-store-is-rejected", err2 != nil)
+}
+
+// VH_C08_retrieve: RetrieveAssertionInfo end to end (signature checking on or off): the summary is taken from
+// the first verified assertion (C01e, C08), the flag mirrors the Response (C04), warnings mirror its
+// conditions at the SP clock (C05, C06); a Response without any plaintext assertion is rejected, never a panic (C03, C09).
+func vhRetrieve(maxKids int, deep bool) {
+	skip := vFlag("skipSignatureValidation")
+	sp := vhOrchSP(skip)
+	if deep {
+		sp.AllowMissingAttributes = vFlag("allowMissingAttributes")
+	}
+	s := vhSSOScenario(maxKids, 3) // assertions, encrypted assertions, encrypted junk
+	enc := vEncodeDoc("wire", s.root, 0)
+
+	info, err := sp.RetrieveAssertionInfo(enc)
+	vDebugErr("RetrieveAssertionInfo", err)
+	vAssert("C09.result-xor-error", (info != nil) != (err != nil))
+	if err != nil {
+		vReach("rejected", true)
+		return
+	}
+	vReach("accepted", true)
+	rootVerified := !skip && s.rootSig == vhSigValid
+	var exp []*vhA
+	if skip {
+		// nothing is decrypted when signature checking is off: only plaintext assertions exist
+		exp = s.direct
+	} else {
+		exp = vhExpected(s, rootVerified)
+	}
+	vAssert("C01,C03,C09.accepted-response-has-an-assertion", len(exp) >= 1 && len(info.Assertions) == len(exp))
+	if len(exp) == 0 || len(info.Assertions) != len(exp) {
+		return
+	}
+	vAssert("C04.summary-flag-mirrors-response", info.ResponseSignatureValidated == rootVerified)
+	vAssert("C01,C08.assertion-list-is-the-verified-one", vhSameInOrder(info.Assertions, exp))
+	first := exp[0]
+	vAssert("C01,C08.nameid-of-first-verified-assertion", info.NameID == first.NameID)
+	vAssert("C08.session-index", info.SessionIndex == first.SessionIndex)
+	at, have := info.Values[first.AttrName]
+	vAssert("C08.attribute-keyed-by-name", have && len(info.Values) == 1)
+	if have {
+		vAssert("C08.attribute-values-in-order", vAnd(len(at.Values) == 1 && at.Name == first.AttrName, at.Values[0].Value == first.AttrValue))
+	}
+	w := info.WarningInfo
+	vAssert("C05,C06.warnings-present", w != nil)
+	if w == nil {
+		return
+	}
+	reads := vClockReads("sp")
+	if reads >= 1 {
+		now := vClockAt("sp", reads-1)
+		vAssert("C05.time-warning-iff-outside-half-open-window", vIff(w.InvalidTime, vOr(now < vParseNs(first.CondNB), now >= vParseNs(first.CondNOA))))
+	}
+	vAssert("C06.audience-warning-iff-no-match", vIff(w.NotInAudience, first.Audience != sp.AudienceURI))
+	vAssert("C06.no-one-time-use-no-proxy", !w.OneTimeUse && w.ProxyRestriction == nil)
+}
+
+func VH_C08_retrieve()      { vhRetrieve(1, false) }
+func VH_C08_retrieve_deep() { vhRetrieve(2, true) }
+
+// VH_C12_routing: every decoding stage inflates through the configured limit (the message itself and the
+// plaintext of an EncryptedAssertion), the unverified pre-decoders through the fixed 5 MiB one.
+func VH_C12_routing() {
+	sp := vhOrchSP(false)
+	limit := vI64("limit")
+	vAssume(vAnd(limit >= 0, limit <= 1<<27))
+	sp.MaximumDecompressedBodySize = limit
+	eff := vIteI(limit == 0, 5*1024*1024, limit)
+	s := &vhScenario{rootSig: vChoice("root.sig", 2)}
+	s.root = vhResponseRoot(s, "samlp:Response")
+	a := vhAssertionEl("c0", vhSigValid)
+	vAssume(a.ID != s.ID)
+	encChild := vFlag("c0.encrypted")
+	if encChild {
+		s.root.AddChild(vhEncryptedElZ("c0.enc", a.el, vFlag("c0.plaintext.compressed")))
+	} else {
+		s.root.AddChild(a.el)
+	}
+	mode := vChoice("wire.mode", 2)
+	enc := vEncodeDoc("wire", s.root, mode)
+	entry := vChoice("entry", 2)
+	vMemMark()
+	switch entry {
+	case 0:
+		_, err := sp.ValidateEncodedResponse(enc)
+		vDebugErr("validate", err)
+		vReach("validated", err == nil)
+		vAssert("C12.every-inflation-bounded-by-the-configured-limit", vMaterialised()-1 <= eff)
+		vAssert("C12.every-inflation-within-8x-the-configured-limit", vOr(eff > 1<<23, vMaterialised() <= 8*(eff+1)+(1<<20)))
+		if err == nil && mode == 1 {
+			vAssert("C12.accepted-compressed-message-fits-the-configured-limit", vWireInflatedLen("wire") <= eff)
+		}
+	case 1:
+		_, err := DecodeUnverifiedBaseResponse(enc)
+		vDebugErr("predecode", err)
+		vReach("predecoded", err == nil)
+		vAssert("C12.pre-decoder-inflation-bounded-by-5MiB", vMaterialised()-1 <= 5*1024*1024)
+		if err == nil && mode == 1 {
+			vAssert("C12.pre-decoder-accepts-compressed-only-within-5MiB", vWireInflatedLen("wire") <= 5*1024*1024)
+		}
+	}
+	vAssert("C12.inflater-always-limited", vNot(vReadAllUnlimited()))
 }
